@@ -35,6 +35,33 @@ theorem lf62Erase_append (Z : List (Nat × Nat)) : ∀ (ins : List (Ins Nat R)) 
     rw [this]
     exact lf62Erase_append Z r _ (fun j hj => hZ j (List.mem_cons_of_mem _ hj))
 
+/-- every insertion cuts a bond that is still there when it is made -/
+def lf62Mem : List (Nat × Nat) → List (Ins Nat R) → Prop
+  | _, [] => True
+  | B, i :: r => i.plain ∈ B ∧ lf62Mem (B.erase i.plain) r
+
+theorem lf62Mem_of_append (Z : List (Nat × Nat)) : ∀ (ins : List (Ins Nat R)) (B : List (Nat × Nat)),
+    lf62Mem (B ++ Z) ins → (∀ i ∈ ins, i.plain ∉ Z) → lf62Mem B ins
+  | [], _, _, _ => trivial
+  | i :: r, B, hm, hZ => by
+    obtain ⟨h1, h2⟩ := hm
+    have hB : i.plain ∈ B := by
+      rcases List.mem_append.1 h1 with h | h
+      · exact h
+      · exact absurd h (hZ i List.mem_cons_self)
+    refine ⟨hB, ?_⟩
+    rw [List.erase_append_left _ hB] at h2
+    exact lf62Mem_of_append Z r _ h2 (fun j hj => hZ j (List.mem_cons_of_mem _ hj))
+
+/-- the bonds are the uncut ones together with the cut ones -/
+theorem lf62Mem_perm : ∀ (ins : List (Ins Nat R)) (B : List (Nat × Nat)),
+    lf62Mem B ins → B.Perm (lf62Erase B ins ++ ins.map Ins.plain)
+  | [], B, _ => by simp [lf62Erase]
+  | i :: r, B, hm => by
+    obtain ⟨h1, h2⟩ := hm
+    have ih := lf62Mem_perm r _ h2
+    exact (List.perm_cons_erase h1).trans ((ih.cons i.plain).trans List.perm_middle.symm)
+
 /-- a bound pair whose labels occur in no other pair can be summed last -/
 theorem lf62_sumPairs_last (dim : Nat → Nat) (q r : Nat) (f : Asg Nat → R) :
     ∀ (cs : List (Nat × Nat)), (∀ c ∈ cs, q ≠ c.1 ∧ q ≠ c.2 ∧ r ≠ c.1 ∧ r ≠ c.2) →
@@ -116,13 +143,13 @@ theorem lf62_level_flat_core (dim : Nat → Nat) (e : Label → Nat) {n : Id} {i
       (∀ i ∈ ins, DependsOn (fun l => l = i.a' ∨ l = i.b') i.Pm) ∧
       (∀ i ∈ ins, v.next ≤ i.a') ∧ ins.Pairwise (fun x y => x.a' + 4 ≤ y.a') ∧
       (∀ i ∈ ins, i.plain ∈ v.bonds ∨ v.next ≤ i.a ∨ v.next ≤ i.b) ∧
-      (∀ (K : List Nat) (N0 : Nat), (∀ k ∈ K, k ∈ v.ids ∧ ∀ l ∈ v.legs k, l < N0) → n ∈ K → (∀ x ∈ es, x.c ∈ K) →
-        ∀ i ∈ ins, i.a < N0 ∧ i.b < N0) ∧
+      (∀ (K : List Nat) (N0 : Nat), N0 ≤ v.next → (∀ k ∈ K, k ∈ v.ids ∧ ∀ l ∈ v.legs k, l < N0) → n ∈ K →
+        (∀ x ∈ es, x.c ∈ K) → (∀ i ∈ ins, i.a < N0 ∧ i.b < N0) ∧ lf62Mem v.bonds ins) ∧
       (ins.Pairwise lf62Sep →
         ∀ σ, v'.value dim σ =
           netValue dim (lf62Erase v.bonds ins ++ ins.flatMap Ins.cut) (ins.map Ins.Pm ++ v.ids.map v.tens) σ) := by
   induction hr with
-  | nil t g v => exact ⟨[], rfl, rfl, by simp, by simp, by simp, by simp, by simp, by simp, by simp, fun _ σ => by simp [lf62Erase, VNet.value]⟩
+  | nil t g v => exact ⟨[], rfl, rfl, by simp, by simp, by simp, by simp, by simp, by simp, by simp [lf62Mem], fun _ σ => by simp [lf62Erase, VNet.value]⟩
   | @cons t t0 t1 t2 t' g g0 g1 g2 g' v v0 v1 v2 v' c Pi rest hpre hid hdep hsp _ ih =>
     obtain ⟨hg0, hv0⟩ := lf62_access_run hpre hacc
     subst hg0
@@ -191,13 +218,8 @@ theorem lf62_level_flat_core (dim : Nat → Nat) (e : Label → Nat) {n : Id} {i
             right; left; omega
         · right; left; omega
         · right; right; omega
-    · intro K N0 hK hnK hcK i hi'
-      rcases List.mem_cons.1 hi' with rfl | hi'
-      · have hc : c ∈ K := hcK _ List.mem_cons_self
-        rcases hends with ⟨m1, m2⟩ | ⟨m1, m2⟩
-        · exact ⟨(hK c hc).2 _ m1, (hK n hnK).2 _ m2⟩
-        · exact ⟨(hK n hnK).2 _ m1, (hK c hc).2 _ m2⟩
-      · refine horigr K N0 ?_ hnK (fun x hx => hcK x (List.mem_cons_of_mem _ hx)) i hi'
+    · intro K N0 hN0 hK hnK hcK
+      have hK2 : ∀ k ∈ K, k ∈ v2.ids ∧ ∀ l ∈ v2.legs k, l < N0 := by
         intro k hk
         obtain ⟨hkv, hkl⟩ := hK k hk
         have hk1 : k ∈ (setTens v1 (ids.ident c) Pi).ids.erase (ids.ident c) := by
@@ -206,6 +228,25 @@ theorem lf62_level_flat_core (dim : Nat → Nat) (e : Label → Nat) {n : Id} {i
           exact hkv
         obtain ⟨a1, a2⟩ := hsl k hk1
         exact ⟨a1, fun l hl' => hkl l (hil k hkv l (a2 l hl'))⟩
+      obtain ⟨hor, hmemr⟩ := horigr K N0 (by omega) hK2 hnK (fun x hx => hcK x (List.mem_cons_of_mem _ hx))
+      refine ⟨?_, hp, ?_⟩
+      · intro i hi'
+        rcases List.mem_cons.1 hi' with rfl | hi'
+        · have hc : c ∈ K := hcK _ List.mem_cons_self
+          rcases hends with ⟨m1, m2⟩ | ⟨m1, m2⟩
+          · exact ⟨(hK c hc).2 _ m1, (hK n hnK).2 _ m2⟩
+          · exact ⟨(hK n hnK).2 _ m1, (hK c hc).2 _ m2⟩
+        · exact hor i hi'
+      · have hb3 : v2.bonds = v0.bonds.erase (lf62Ins v0 p Pi).plain ++
+            [(p.1, v0.next), (v0.next + 1, p.2), (v0.next + 2, v0.next + 3)] := by
+          rw [hb2']
+          simp [lf62Ins, Ins.plain, List.append_assoc]
+        rw [hb3] at hmemr
+        refine lf62Mem_of_append _ ins _ hmemr ?_
+        intro i hi' hm
+        obtain ⟨ia, ib⟩ := hor i hi'
+        simp only [Ins.plain, List.mem_cons, List.not_mem_nil, or_false, Prod.mk.injEq] at hm
+        rcases hm with ⟨_, hh⟩ | ⟨hh, _⟩ | ⟨hh, _⟩ <;> omega
     rotate_left 1
     · intro i hi'
       rcases List.mem_cons.1 hi' with rfl | hi'
